@@ -62,6 +62,8 @@ package flate
 //@   ensures[C04 end-input-drained] err == errEndInput ==> len(state.input) == 0
 //@   ensures[C03 bits] 0 <= state.bitsLen && state.bitsLen <= 64 && stBase(state) && len(state.input) <= old(len(state.input)) && sameobj(state.input, old(state.input)) && state.input != nil
 //@   ensures[C04 C05 accounting] remBits(state) <= old(remBits(state))
+//@   assert call copy 1 [C02 lz-args] 1 <= lookBackDist && lookBackDist <= written && 0 <= repeatLength && repeatLength <= 258 && written + repeatLength <= len(output) && nextDist < 30 && lookBackDist >= int(rfcLookupTable.DistStart[nextDist]) && lookBackDist < int(rfcLookupTable.DistStart[nextDist]) + (1 << uint(rfcLookupTable.DistExtraBitCount[nextDist])) && repeatLength + int(state.copyOverflowLength) == int(nextLit) - 254 && (state.copyOverflowLength > 0 ==> written + repeatLength == len(output))
+//@   assert call byteCopy 1 [C02 lz-args] 1 <= lookBackDist && lookBackDist <= written && 0 <= repeatLength && repeatLength <= 258 && written + repeatLength <= len(output) && nextDist < 30 && lookBackDist >= int(rfcLookupTable.DistStart[nextDist]) && lookBackDist < int(rfcLookupTable.DistStart[nextDist]) + (1 << uint(rfcLookupTable.DistExtraBitCount[nextDist])) && repeatLength + int(state.copyOverflowLength) == int(nextLit) - 254 && (state.copyOverflowLength > 0 ==> written + repeatLength == len(output))
 //@   assert call LeadingZeros64 1 [C02 carry-repr] err == errOutputOverflow && state.writeOverflowLen > 0 && nextLits >= 256 ==> uint32(state.writeOverflowLits) >> (8*uint32(state.writeOverflowLen)) == nextLits
 //@   loop 1 invariant 0 <= bitsLen && bitsLen <= 64 && sameobj(input, old(state.input)) && len(input) <= old(len(state.input)) && input != nil && old(written) <= written && written <= len(output) && 8*len(input) + int(bitsLen) <= old(remBits(state)) && err == nil && state.copyOverflowLength == 0 && (state.phase == phaseHeaderDecoded || (state.bfinal == 1 && state.phase == phaseStreamEnd) || (state.bfinal != 1 && state.phase == phaseNewBlock)) && state.writeOverflowLen == 0
 //@   loop 2 invariant -1 <= rangeindex && rangeindex < size && 0 <= size && size <= 8 && size <= len(input) && 0 <= atentry(bitsLen) && 8*size <= 64 - int(atentry(bitsLen)) && bitsLen == atentry(bitsLen) + int32(8*(rangeindex+1))
@@ -95,7 +97,7 @@ package flate
 //@   ensures[C04 C05 accounting] remBits(state) <= old(remBits(state))
 
 //@ func byteCopy
-//@   trusted "not yet verified (the periodicity argument of the doubling overlapped copy needs modular reasoning the solvers do not finish): LZ77 copy of length bytes from distance dist"
+//@   trusted "not verified: the doubling overlapped copy needs a periodicity argument (hist[x] == hist[start + (x-start) % dist]) with a symbolic modulus; z3 and cvc5 time out on it (tried with that invariant, 360 s). A bounded check (all distances and lengths up to 600) runs with C02/C03/C18: LZ77 copy of length bytes from distance dist"
 //@   requires 1 <= dist && dist <= curr && 0 <= length && curr <= len(hist) && length <= len(hist) && curr + length <= len(hist) && len(hist) <= 1073741824
 //@   modifies hist[*]
 //@   ensures[C02 lz-copy] forall k :: 0 <= k && k < length ==> hist[curr+k] == hist[curr-dist+k]
@@ -301,10 +303,13 @@ package flate
 //@   ensures[C03 phase] err != nil ==> state.phase == phaseLitBlock
 //@   ensures[C04 end-input-drained] err == errEndInput ==> len(state.input) == 0 && state.bitsLen == 0
 //@   ensures[C02 C05 accounting] remBits(state) == old(remBits(state)) - 8*(w - written)
+//@   ensures[C02 stored-bytes] forall k :: 0 <= k && k < w - written ==> output[written+k] == (k < int(old(state.bitsLen))/8 ? uint8(old(state.bits) >> uint64(8*k)) : old(state.input[k - int(old(state.bitsLen))/8]))
 //@   ensures[C02 C04 bits-kept] state.bitsLen > 0 ==> state.bits == old(state.bits) >> uint64(old(state.bitsLen) - state.bitsLen)
 //@   ensures stBase(state) && state.bitsLen % 8 == 0 && 0 <= state.bitsLen && len(state.input) <= old(len(state.input)) && sameobj(state.input, old(state.input)) && state.input != nil
 //@   ensures forall k :: 0 <= k && k < written ==> output[k] == old(output[k])
 //@   loop 1 invariant state.bits == old(state.bits) >> uint64(8*count) && count <= 8
+//@   loop 1 invariant forall j :: 0 <= j && j < count ==> output[old(written)+j] == uint8(old(state.bits) >> uint64(8*j))
+//@   loop 1 invariant state.bitsLen == old(state.bitsLen) - int32(8*count)
 //@   loop 1 invariant 0 <= count && count <= length && (state.bitsLen != 0 ==> count < length) && written == old(written) + count && 0 <= length && old(written) + length <= len(output) && length <= old(state.litBlockLength) && state.litBlockLength == old(state.litBlockLength) - length && length <= int(old(state.bitsLen)/8) + len(state.input) && state.bitsLen == old(state.bitsLen) - int32(8*count) && state.bitsLen % 8 == 0 && 0 <= state.bitsLen && state.bitsLen <= 64 && same(state.input) && (err == nil || err == errEndInput || err == errOutputOverflow) && (err == nil ==> length == old(state.litBlockLength) && (state.bfinal != 0 ==> state.phase == phaseStreamEnd) && (state.bfinal == 0 ==> state.phase == phaseNewBlock)) && (err != nil ==> state.phase == phaseLitBlock) && (err == errEndInput ==> length == int(old(state.bitsLen)/8) + len(state.input)) && (forall k :: 0 <= k && k < old(written) ==> output[k] == old(output[k]))
 
 // ---------------------------------------------------------------------------
